@@ -1,4 +1,403 @@
-import LasModel.Model.Appender
+/-
+C06 — appending is equivalent to having written the concatenation.
+-/
+import LasModel.Lemmas.Append
+import LasModel.Props.C04
+
 namespace LasModel.Props.C06
-theorem C06_placeholder : True := trivial
+open LasModel.Bytes LasModel.Header LasModel.Vlr LasModel.FileIO LasModel.Appender
+
+/-- extra float law for the appender: a double read back from its bit pattern is the double
+    that was written (`struct.pack`/`unpack` are inverse on the values that occur) -/
+def BitsRoundTrip {F} (o : FOps F) (good : F → Prop) : Prop := ∀ x, good x → o.ofBits (o.bits x) = x
+
+theorem goodStats_final {F} (o : FOps F) (good : F → Prop) (L : Laws o good) (gz : good o.zero) (h : Hdr)
+    (As : List (List Rec)) : GoodStats o good (finalStats o h As) := by
+  unfold finalStats
+  rw [foldStats_flatten o good L _ _ (resetStats_good o good L gz)]
+  split
+  · exact resetStats_good o good L gz
+  · rename_i hne
+    exact (grow_grow o good L _ _ (resetStats_good o good L gz) _ _ hne hne).2
+
+/-- the statistics the appender starts from are those the writer ended with (count and
+    extrema; the per-return bins are the ones the version stores) -/
+theorem statsOfHdr_final {F} (o : FOps F) (good : F → Prop) (L : Laws o good) (gz : good o.zero)
+    (hob : BitsRoundTrip o good) (h : Hdr) (hd12 : h.doubles.length = 12) (As : List (List Rec)) (ev : List Vlr) :
+    let sA := finalStats o h As
+    let s0 := statsOfHdr o (canon (finalHdr o h As ev))
+    s0.count = sA.count ∧ s0.maxs = sA.maxs ∧ s0.mins = sA.mins ∧
+    s0.byReturn = (canon (finalHdr o h As ev)).byReturn := by
+  intro sA s0
+  have hg := goodStats_final o good L gz h As
+  obtain ⟨l1, l2, g1, g2, _⟩ := hg
+  obtain ⟨m0, m1, m2, hmx⟩ := list3 _ l1
+  obtain ⟨n0, n1, n2, hmn⟩ := list3 _ l2
+  have h6 : (h.doubles.take 6).length = 6 := by simp [hd12]
+  have hcount : (canon (finalHdr o h As ev)).count = sA.count := rfl
+  by_cases hc : sA.count = 0
+  · have hreset : sA = resetStats o := by
+      have hcnt : sA.count = As.flatten.length := by
+        simp only [sA, finalStats]; rw [foldStats_count]; simp [resetStats]
+      have hemp : As.flatten = [] := List.length_eq_zero_iff.mp (by omega)
+      simp only [sA, finalStats]
+      rw [foldStats_flatten o good L _ _ (resetStats_good o good L gz)]
+      simp [hemp]
+    simp only [s0, statsOfHdr, hcount, hc, if_true]
+    rw [hreset]
+    simp [resetStats]
+  · simp only [s0, statsOfHdr, hcount, hc, if_false]
+    refine ⟨by first | rfl | trivial, ?_, ?_, by first | rfl | trivial⟩
+    · have g : good m0 ∧ good m1 ∧ good m2 := by
+        rw [hmx] at g1; exact ⟨g1 _ (by simp), g1 _ (by simp), g1 _ (by simp)⟩
+      simp only [canon, finalHdr, withStats]
+      have hsc : ¬ (finalStats o h As).count = 0 := hc
+      simp only [hsc, if_false]
+      have hmx' : (finalStats o h As).maxs = [m0, m1, m2] := hmx
+      simp [hmx', List.range, List.range.loop, List.getD_eq_getElem?_getD, List.getElem?_append_right, h6,
+        hob _ g.1, hob _ g.2.1, hob _ g.2.2]
+      exact hmx.symm
+    · have g : good n0 ∧ good n1 ∧ good n2 := by
+        rw [hmn] at g2; exact ⟨g2 _ (by simp), g2 _ (by simp), g2 _ (by simp)⟩
+      simp only [canon, finalHdr, withStats]
+      have hsc : ¬ (finalStats o h As).count = 0 := hc
+      simp only [hsc, if_false]
+      have hmn' : (finalStats o h As).mins = [n0, n1, n2] := hmn
+      simp [hmn', List.range, List.range.loop, List.getD_eq_getElem?_getD, List.getElem?_append_right, h6,
+        hob _ g.1, hob _ g.2.1, hob _ g.2.2]
+      exact hmn.symm
+
+
+theorem finalStats_append {F} (o : FOps F) (h : Hdr) (As Bs : List (List Rec)) :
+    finalStats o h (As ++ Bs) = foldStats o (fmtOf h) (finalStats o h As) Bs := by
+  unfold finalStats; exact foldStats_append o _ _ As Bs
+
+theorem finalStats_returns {F} (o : FOps F) (h : Hdr) (As : List (List Rec)) :
+    (finalStats o h As).byReturn = growReturns (fmtOf h) (List.replicate 15 0) As.flatten ∧
+    (finalStats o h As).byReturn.length = 15 := by
+  have : (finalStats o h As).byReturn = growReturns (fmtOf h) (List.replicate 15 0) As.flatten := by
+    unfold finalStats; rw [foldStats_returns]; rfl
+  exact ⟨this, by rw [this, growReturns_length]; simp⟩
+
+/-- the six extrema patterns written for given statistics -/
+def extOf {F} (o : FOps F) (s : Stats F) : List Nat :=
+  let mx := if s.count = 0 then List.replicate 3 o.zero else s.maxs
+  let mn := if s.count = 0 then List.replicate 3 o.zero else s.mins
+  (List.range 3).flatMap fun a => [o.bits (mx.getD a o.zero), o.bits (mn.getD a o.zero)]
+
+theorem withStats_doubles {F} (o : FOps F) (h : Hdr) (s : Stats F) (e n : Nat) :
+    (withStats o h s e n).doubles = h.doubles.take 6 ++ extOf o s := rfl
+
+theorem extOf_congr {F} (o : FOps F) (s s' : Stats F) (hc : s.count = s'.count) (hm : s.maxs = s'.maxs)
+    (hn : s.mins = s'.mins) : extOf o s = extOf o s' := by
+  unfold extOf; rw [hc, hm, hn]
+
+/-- the header the appender writes at close is encoded exactly like the header of the
+    one-shot file of all the points -/
+theorem append_sameEnc {F} (o : FOps F) (good : F → Prop) (L : Laws o good) (gz : good o.zero)
+    (hob : BitsRoundTrip o good) (h : Hdr) (hd12 : h.doubles.length = 12) (As Bs : List (List Rec)) (ev : List Vlr)
+    (es : Nat) (hes : h.vMinor ≥ 4 → es = (finalHdr o h (As ++ Bs) ev).evlrStart) :
+    SameEnc (withStats o (canon (finalHdr o h As ev))
+        (foldStats o (fmtOf h) (statsOfHdr o (canon (finalHdr o h As ev))) Bs) es
+        (canon (finalHdr o h As ev)).nEvlrs)
+      (finalHdr o h (As ++ Bs) ev) := by
+  obtain ⟨c0, c1, c2, c3⟩ := statsOfHdr_final o good L gz hob h hd12 As ev
+  have hext := foldStats_ext_congr o (fmtOf h) _ _ c1 c2 Bs
+  have hcnt : (foldStats o (fmtOf h) (statsOfHdr o (canon (finalHdr o h As ev))) Bs).count =
+      (finalStats o h (As ++ Bs)).count := by
+    rw [foldStats_count, c0, finalStats_append, foldStats_count]
+  have hret : (foldStats o (fmtOf h) (statsOfHdr o (canon (finalHdr o h As ev))) Bs).byReturn =
+      growReturns (fmtOf h) (canon (finalHdr o h As ev)).byReturn Bs.flatten := by
+    rw [foldStats_returns, c3]
+  have hretAB : (finalStats o h (As ++ Bs)).byReturn =
+      growReturns (fmtOf h) (finalStats o h As).byReturn Bs.flatten := by
+    rw [finalStats_append, foldStats_returns]
+  have h6 : (h.doubles.take 6).length = 6 := by simp [hd12]
+  have hrA := finalStats_returns o h As
+  have hd6 : (canon (finalHdr o h As ev)).doubles.take 6 = h.doubles.take 6 := by
+    have e : (canon (finalHdr o h As ev)).doubles = h.doubles.take 6 ++ extOf o (finalStats o h As) := rfl
+    rw [e, List.take_left' h6]
+  generalize foldStats o (fmtOf h) (statsOfHdr o (canon (finalHdr o h As ev))) Bs = sB at *
+  refine { fsid := rfl, ge := rfl, guid := rfl, major := rfl, minor := rfl, sys := rfl, soft := rfl, doy := rfl,
+           year := rfl, fmt := rfl, recLen := rfl, nvlrs := rfl, xh := rfl, xv := rfl, count := hcnt, doubles := ?_,
+           wave := ?_, v14 := ?_, legacy := ?_ }
+  · rw [withStats_doubles, hd6]
+    have e : (finalHdr o h (As ++ Bs) ev).doubles = h.doubles.take 6 ++ extOf o (finalStats o h (As ++ Bs)) := rfl
+    rw [e]
+    congr 1
+    apply extOf_congr o _ _ hcnt
+    · rw [hext.1, ← finalStats_append]
+    · rw [hext.2, ← finalStats_append]
+  · intro h3
+    have h3' : h.vMinor ≥ 3 := h3
+    show (canon (finalHdr o h As ev)).waveformStart = h.waveformStart
+    simp [canon, finalHdr, withStats, h3']
+  · intro h4
+    have h4' : h.vMinor ≥ 4 := h4
+    refine ⟨hes h4', ?_, ?_⟩
+    · show (canon (finalHdr o h As ev)).nEvlrs = (finalHdr o h (As ++ Bs) ev).nEvlrs
+      simp [canon, finalHdr, withStats, h4']
+    · show sB.byReturn = (finalStats o h (As ++ Bs)).byReturn
+      rw [hret, hretAB]
+      congr 1
+      simp [canon, finalHdr, withStats, h4']
+  · intro h4
+    have h4' : ¬ h.vMinor ≥ 4 := by
+      have : (withStats o (canon (finalHdr o h As ev)) sB es (canon (finalHdr o h As ev)).nEvlrs).vMinor = h.vMinor := rfl
+      omega
+    show sB.byReturn.take 5 = (finalStats o h (As ++ Bs)).byReturn.take 5
+    rw [hret, hretAB]
+    apply growReturns_take5
+    · simp [canon, finalHdr, withStats, h4', hrA.2]
+    · exact hrA.2
+    · simp only [canon, finalHdr, withStats, h4', if_false]
+      rw [List.take_append_of_le_length (by simp [hrA.2]), List.take_take]
+      simp
+
+
+theorem sessionOK_prefix {F} (o : FOps F) (h : Hdr) (As Bs : List (List Rec)) (ev : List Vlr)
+    (ok : SessionOK o h (As ++ Bs) ev) : SessionOK o h As ev :=
+  { wf := ok.wf, bits := ok.bits, compat := ok.compat, hsize := ok.hsize, offset := ok.offset,
+    cap := by have := ok.cap; simp only [List.flatten_append, List.length_append] at this; omega,
+    evWF := ok.evWF, evVersion := ok.evVersion, evCount := ok.evCount,
+    fileSize := by
+      have := ok.fileSize
+      simp only [List.flatten_append, List.length_append] at this; omega }
+
+/-- **appending = having written the concatenation, byte for byte**: for an original written
+    by a writer session (any chunking `As`, any EVLRs) and any sequence of appended chunks `Bs`
+    (empty ones included), the appender leaves exactly the file the writer produces for
+    `As ++ Bs` — same point sequence, exact statistics, VLRs untouched, EVLRs relocated after
+    the new points. -/
+theorem C06_bytes {F} (o : FOps F) (good : F → Prop) (L : Laws o good) (gz : good o.zero)
+    (hob : BitsRoundTrip o good) (h : Hdr) (As Bs : List (List Rec)) (ev : List Vlr)
+    (ok : SessionOK o h (As ++ Bs) ev)
+    (hfmt : Gen.formatIds.contains (fmtOf h) = true) (hrl : Gen.recLen (fmtOf h) ≤ h.recLen)
+    (hrec : ∀ r ∈ As.flatten, r.length = h.recLen) (hevn : ∀ v ∈ ev, factory v = v) :
+    ∃ file0 file1, session o h (sessionOps h As ev) = .ok file0 ∧
+      session o h (sessionOps h (As ++ Bs) ev) = .ok file1 ∧
+      appendSession o file0 (Bs.map (mkChunk h)) = .ok file1 := by
+  have okA := sessionOK_prefix o h As Bs ev ok
+  obtain ⟨vb, eb, hvb, heb, hvl, hdec, hebdec, hwA, hsA⟩ := session_form o h As ev okA
+  obtain ⟨vb', eb', hvb', heb', _, _, _, hwAB, hsAB⟩ := session_form o h (As ++ Bs) ev ok
+  rw [hvb] at hvb'; injection hvb' with e1; subst e1
+  rw [heb] at heb'; injection heb' with e2; subst e2
+  refine ⟨_, _, hsA, hsAB, ?_⟩
+  have hw := ok.wf
+  have hd12 := hw.doubles.1
+  have hoff : base h.vMinor + h.extraHeader.length + vb.length + h.extraVlr.length < 2 ^ 32 := by
+    have := ok.offset; rw [← hvl] at this; exact this
+  -- the original file
+  have hLA := encForm_length (finalHdr o h As ev) hwA vb
+  have hLA' : (encForm (finalHdr o h As ev) vb).length = headerLenOf h := by
+    rw [hLA]; simp [finalHdr, withStats, headerLenOf, hvl]
+  obtain ⟨hdecode, hfo⟩ := decode_form (finalHdr o h As ev) hwA vb (As.flatten.flatten ++ eb)
+    (by intro rest; simpa [finalHdr, withStats] using hdec rest)
+    (by simpa [finalHdr, withStats] using ok.hsize) (by simpa [finalHdr, withStats] using hoff)
+  have hflatA := flatten_length_uniform As.flatten h.recLen hrec
+  have hcountA : (finalHdr o h As ev).count = As.flatten.length := by
+    simp only [finalHdr, withStats, finalStats]; rw [foldStats_count]; simp [resetStats]
+  have hevmap : ev.map factory = ev := by
+    have : ∀ l : List Vlr, (∀ v ∈ l, factory v = v) → l.map factory = l := by
+      intro l hl
+      induction l with
+      | nil => rfl
+      | cons a l ih => simp [hl a (by simp), ih (fun v hv => hl v (by simp [hv]))]
+    exact this ev hevn
+  -- open
+  unfold appendSession
+  have hopen : openAppend o (encForm (finalHdr o h As ev) vb ++ As.flatten.flatten ++ eb) =
+      .ok { hdr := canon (finalHdr o h As ev), stats := statsOfHdr o (canon (finalHdr o h As ev)),
+            store := encForm (finalHdr o h As ev) vb ++ As.flatten.flatten ++ eb,
+            pos := headerLenOf h + As.flatten.flatten.length,
+            evlrs := if h.vMinor ≥ 4 ∧ ¬ ev.isEmpty then ev else [], offset := headerLenOf h } := by
+    unfold openAppend
+    rw [List.append_assoc, hdecode, hfo]
+    simp only
+    have c1 : fmtOf (canon (finalHdr o h As ev)) = fmtOf h := rfl
+    have c2 : (canon (finalHdr o h As ev)).recLen = h.recLen := rfl
+    have c3 : (canon (finalHdr o h As ev)).count = As.flatten.length := hcountA
+    have c4 : (canon (finalHdr o h As ev)).vMinor = h.vMinor := rfl
+    rw [c1, c2, c3, c4, hLA', ← hflatA]
+    have hnl : ¬ (h.recLen < Gen.recLen (fmtOf h)) := by omega
+    simp only [hfmt, not_true_eq_false, if_false, hnl]
+    by_cases hemp : ev.isEmpty = true
+    · have hne : (canon (finalHdr o h As ev)).nEvlrs = 0 := by simp [canon, finalHdr, withStats, hemp]
+      simp [hne, hemp]
+    · by_cases h4 : h.vMinor ≥ 4
+      · have hne : (canon (finalHdr o h As ev)).nEvlrs = ev.length := by simp [canon, finalHdr, withStats, hemp, h4]
+        have hse : (canon (finalHdr o h As ev)).evlrStart = headerLenOf h + As.flatten.flatten.length := by
+          simp [canon, finalHdr, withStats, hemp, h4]
+        have hpos : ev.length > 0 := by cases hh : ev with | nil => simp [hh] at hemp | cons a l => simp
+        rw [hne, hse]
+        simp only [h4, hpos, and_self, if_true, Nat.lt_irrefl, if_false, hemp, Bool.false_eq_true, not_false_eq_true]
+        have hdrop : (encForm (finalHdr o h As ev) vb ++ (As.flatten.flatten ++ eb)).drop
+            (headerLenOf h + As.flatten.flatten.length) = eb := by
+          rw [← hLA', ← List.append_assoc, ← List.length_append]; exact List.drop_left
+        rw [hdrop]
+        have := hebdec []
+        simp only [List.append_nil] at this
+        rw [this, hevmap]
+      · have := ok.evVersion (by omega); subst this; simp at hemp
+  rw [hopen]
+  simp only
+  -- append all chunks
+  have hcapB : (statsOfHdr o (canon (finalHdr o h As ev))).count + Bs.flatten.length ≤ maxPointCount h.vMinor := by
+    have c0 := (statsOfHdr_final o good L gz hob h hd12 As ev).1
+    rw [c0]
+    have : (finalStats o h As).count = As.flatten.length := by
+      unfold finalStats; rw [foldStats_count]; simp [resetStats]
+    rw [this]
+    have := ok.cap
+    simp only [List.flatten_append, List.length_append] at this
+    exact this
+  have happ := appendAll_form o h
+    { hdr := canon (finalHdr o h As ev), stats := statsOfHdr o (canon (finalHdr o h As ev)),
+      store := encForm (finalHdr o h As ev) vb ++ As.flatten.flatten ++ eb,
+      pos := headerLenOf h + As.flatten.flatten.length,
+      evlrs := if h.vMinor ≥ 4 ∧ ¬ ev.isEmpty then ev else [], offset := headerLenOf h }
+    ⟨rfl, rfl, rfl⟩ (encForm (finalHdr o h As ev) vb ++ As.flatten.flatten) eb rfl (by simp [hLA']) Bs hcapB
+  rw [happ]
+  simp only
+  -- the header written at close
+  have hcloseHdr : ∀ es, (h.vMinor ≥ 4 → es = (finalHdr o h (As ++ Bs) ev).evlrStart) →
+      encodeHdr (withStats o (canon (finalHdr o h As ev))
+        (foldStats o (fmtOf h) (statsOfHdr o (canon (finalHdr o h As ev))) Bs) es
+        (canon (finalHdr o h As ev)).nEvlrs) true (headerLenOf h) = .ok (encForm (finalHdr o h (As ++ Bs) ev) vb) := by
+    intro es hes
+    have hse := append_sameEnc o good L gz hob h hd12 As Bs ev es hes
+    rw [encodeHdr_congr _ _ hse rfl]
+    obtain ⟨vb2, hvb2, _, _, henc2⟩ := encodeHdr_eq (finalHdr o h (As ++ Bs) ev) hwAB true (headerLenOf h)
+    have : vb2 = vb := by
+      have : encodeVlrs false h.vlrs = .ok vb2 := by simpa [finalHdr, withStats] using hvb2
+      rw [hvb] at this; injection this with e; exact e.symm
+    subst this
+    have hsame : (base (finalHdr o h (As ++ Bs) ev).vMinor + (finalHdr o h (As ++ Bs) ev).extraHeader.length + vb2.length +
+        (finalHdr o h (As ++ Bs) ev).extraVlr.length != headerLenOf h) = false := by
+      simp [finalHdr, withStats, headerLenOf, hvl]
+    simp only [hsame, Bool.and_false, Bool.false_eq_true, if_false] at henc2
+    exact henc2
+  have hLAB : (encForm (finalHdr o h (As ++ Bs) ev) vb).length = (encForm (finalHdr o h As ev) vb).length := by
+    rw [encForm_length _ hwAB, encForm_length _ hwA]; simp [finalHdr, withStats]
+  have hflatAB : (As ++ Bs).flatten.flatten = As.flatten.flatten ++ Bs.flatten.flatten := by simp
+  unfold closeAppend
+  simp only
+  by_cases hasEv : h.vMinor ≥ 4 ∧ ¬ ev.isEmpty
+  · have hcv : (canon (finalHdr o h As ev)).vMinor ≥ 4 := hasEv.1
+    have hne : ¬ ev.isEmpty = true := by simpa using hasEv.2
+    simp only [hasEv, not_false_eq_true, and_self, if_true, heb, hcv, hne, Bool.false_eq_true]
+    rw [hcloseHdr _ (by
+      intro _
+      have e : (finalHdr o h (As ++ Bs) ev).evlrStart =
+          if ev.isEmpty then 0 else headerLenOf h + (As ++ Bs).flatten.flatten.length := rfl
+      rw [e, List.length_append, hLA', hflatAB, List.length_append]
+      simp only [hne, Bool.false_eq_true, if_false]
+      omega)]
+    simp only
+    have hw1 : writeAt (encForm (finalHdr o h As ev) vb ++ As.flatten.flatten ++ Bs.flatten.flatten ++
+        eb.drop Bs.flatten.flatten.length)
+        ((encForm (finalHdr o h As ev) vb ++ As.flatten.flatten).length + Bs.flatten.flatten.length) eb =
+        encForm (finalHdr o h As ev) vb ++ As.flatten.flatten ++ Bs.flatten.flatten ++ eb := by
+      rw [← List.length_append, writeAt_append]
+      have : (eb.drop Bs.flatten.flatten.length).drop eb.length = [] := by
+        apply List.drop_of_length_le; simp
+      rw [this]
+      try rw [List.append_nil]
+    rw [hw1]
+    rw [List.append_assoc, List.append_assoc, writeAt_zero _ _ _ hLAB]
+    simp [hflatAB, List.append_assoc]
+  · have hevs : (if h.vMinor ≥ 4 ∧ ¬ ev.isEmpty then ev else []) = [] := by rw [if_neg hasEv]
+    have hev0 : ev = [] := by
+      by_cases h4 : h.vMinor ≥ 4
+      · by_cases he : ev.isEmpty = true
+        · exact List.isEmpty_iff.mp he
+        · exact absurd ⟨h4, he⟩ hasEv
+      · exact ok.evVersion (by omega)
+    subst hev0
+    have hebn : eb = [] := by simp [encodeVlrs, pure, Except.pure] at heb; exact heb
+    subst hebn
+    simp only [hevs, List.isEmpty_nil, not_true_eq_false, and_false, if_false, encodeVlrs, pure, Except.pure]
+    rw [hcloseHdr _ (by
+      intro h4
+      have h4' : h.vMinor ≥ 4 := h4
+      simp [canon, finalHdr, withStats, h4'])]
+    simp only
+    rw [List.drop_nil, List.append_nil, List.append_assoc, writeAt_zero _ _ _ hLAB]
+    simp [hflatAB, List.append_assoc]
+
+
+/-- records of another point format (or record length) are refused; no new state is produced,
+    i.e. the file is left untouched -/
+theorem C06_format {F} (o : FOps F) (s : AState F) (c : Chunk)
+    (hf : c.fmt ≠ fmtOf s.hdr ∨ c.recLen ≠ s.hdr.recLen) : appendPoints o s c = .error .format := by
+  unfold appendPoints; simp [hf]
+
+/-- any number of successive append sessions -/
+def appendMany {F} (o : FOps F) (h : Hdr) (file : Bytes) : List (List (List Rec)) → Except AErr Bytes
+  | [] => .ok file
+  | Bs :: rest => match appendSession o file (Bs.map (mkChunk h)) with
+    | .error e => .error e
+    | .ok f => appendMany o h f rest
+
+theorem C06_sessions {F} (o : FOps F) (good : F → Prop) (L : Laws o good) (gz : good o.zero)
+    (hob : BitsRoundTrip o good) (h : Hdr) (ev : List Vlr)
+    (hfmt : Gen.formatIds.contains (fmtOf h) = true) (hrl : Gen.recLen (fmtOf h) ≤ h.recLen)
+    (hevn : ∀ v ∈ ev, factory v = v) (sessions : List (List (List Rec))) (As : List (List Rec))
+    (ok : SessionOK o h (As ++ sessions.flatten) ev)
+    (hrec : ∀ r ∈ (As ++ sessions.flatten).flatten, r.length = h.recLen) :
+    ∃ file0 file1, session o h (sessionOps h As ev) = .ok file0 ∧
+      session o h (sessionOps h (As ++ sessions.flatten) ev) = .ok file1 ∧
+      appendMany o h file0 sessions = .ok file1 := by
+  induction sessions generalizing As with
+  | nil =>
+    obtain ⟨_, _, _, _, _, _, _, _, hs⟩ := session_form o h As ev (by simpa using ok)
+    exact ⟨_, _, hs, by simpa using hs, rfl⟩
+  | cons Bs rest ih =>
+    have hassoc : As ++ (Bs :: rest).flatten = (As ++ Bs) ++ rest.flatten := by simp
+    rw [hassoc] at ok hrec ⊢
+    have ok1 : SessionOK o h (As ++ Bs) ev := sessionOK_prefix o h (As ++ Bs) rest.flatten ev ok
+    obtain ⟨f0, f1, h0, h1, ha⟩ := C06_bytes o good L gz hob h As Bs ev ok1 hfmt hrl
+      (by intro r hr; exact hrec r (by simp only [List.flatten_append, List.mem_append] at hr ⊢; exact Or.inl (Or.inl hr)))
+      hevn
+    obtain ⟨g0, g1, i0, i1, ia⟩ := ih (As ++ Bs) ok hrec
+    rw [h1] at i0; injection i0 with e; subst e
+    refine ⟨f0, g1, h0, i1, ?_⟩
+    simp only [appendMany, ha]
+    exact ia
+
+/-! non-vacuity: an interpretation satisfying `Laws`, `BitsOK` and `BitsRoundTrip` together -/
+
+def clamp (x : Int) : Int := max (-(2 ^ 62)) (min x (2 ^ 62))
+
+def intOps2 : FOps Int :=
+  { render := fun _ x => clamp x, gt := fun a b => decide (a > b), lt := fun a b => decide (a < b),
+    bits := fun x => ((x + 2 ^ 63) % (2 ^ 64 : Nat)).toNat, ofBits := fun n => (n : Int) - 2 ^ 63,
+    lowest := -(2 ^ 62), highest := 2 ^ 62, zero := 0 }
+
+def good2 (x : Int) : Prop := -(2 ^ 62) ≤ x ∧ x ≤ 2 ^ 62
+
+example : Laws intOps2 good2 ∧ BitsOK intOps2 ∧ BitsRoundTrip intOps2 good2 ∧ good2 intOps2.zero := by
+  refine ⟨?_, ?_, ?_, ?_⟩
+  · exact
+    { good_render := by intro a x; simp only [intOps2, clamp, good2]; omega,
+      good_lowest := by simp only [intOps2, good2]; omega,
+      good_highest := by simp only [intOps2, good2]; omega,
+      lt_iff := by intro a b; simp [intOps2],
+      trans := by intro a b c _ _ _ h1 h2; simp [intOps2] at *; omega,
+      negtrans := by intro a b c _ _ _ h1 h2; simp [intOps2] at *; omega,
+      mono := by intro a x y hxy; simp only [intOps2, clamp, gt_iff_lt, decide_eq_false_iff_not]; omega,
+      tie_eq := by intro a x y h1 h2; simp only [intOps2, clamp, gt_iff_lt, decide_eq_false_iff_not] at *; omega }
+  · constructor
+    intro x
+    simp only [intOps2]
+    have h1 := Int.emod_lt_of_pos (x + 2 ^ 63) (show (0 : Int) < ((2 ^ 64 : Nat) : Int) by decide)
+    have h2 := Int.emod_nonneg (x + 2 ^ 63) (show ((2 ^ 64 : Nat) : Int) ≠ 0 by decide)
+    omega
+  · intro x hx
+    simp only [intOps2, good2] at *
+    have : (x + 2 ^ 63) % ((2 ^ 64 : Nat) : Int) = x + 2 ^ 63 := Int.emod_eq_of_lt (by omega) (by omega)
+    rw [this]
+    omega
+  · simp only [intOps2, good2]; omega
+
 end LasModel.Props.C06
